@@ -17,7 +17,11 @@
 (* An outcome o:  val in {"fin","inf","nan","str","nullstr"}, err in           *)
 (*   {"none","eval","deriv","hes"} (Errmsg NULL / plain / ' prefix / " prefix),*)
 (*   dn, hn (is-NaN flag per first partial / per upper-triangle second         *)
-(*   partial, arrays pre-filled with NaN by the caller), det.                  *)
+(*   partial), du, hu (flag: the partial was not written, observed by the      *)
+(*   caller pre-filling the arrays with a sentinel), det.  Every case is       *)
+(*   observed under two caller memory states: fill "nan" (arrays pre-filled    *)
+(*   with NaN; du, hu all FALSE) and fill "val" (sentinel); both outcomes must *)
+(*   satisfy the protocol.                                                     *)
 EXTENDS Integers, Sequences, FiniteSets
 
 Classes == {"NaN", "nbig", "m1", "ntiny", "zero", "tiny", "half", "one", "two", "big", "nonint"}
@@ -35,16 +39,16 @@ WantH(c) == c.mode = "h"
 \* the outcome record has the shape the request implies
 ShapeOK(c, o) == /\ o.err \in {"none", "eval", "deriv", "hes"}
                  /\ o.val \in (IF c.str THEN {"str"} ELSE {"fin", "inf", "nan"})
-                 /\ Len(o.dn) = (IF WantD(c) THEN c.ar ELSE 0)
-                 /\ Len(o.hn) = (IF WantH(c) THEN (c.ar * (c.ar + 1)) \div 2 ELSE 0)
+                 /\ Len(o.dn) = (IF WantD(c) THEN c.ar ELSE 0) /\ Len(o.du) = Len(o.dn)
+                 /\ Len(o.hn) = (IF WantH(c) THEN (c.ar * (c.ar + 1)) \div 2 ELSE 0) /\ Len(o.hu) = Len(o.hn)
 
-\* Errmsg = NULL => nothing that was asked for is NaN
+\* Errmsg = NULL => nothing that was asked for is NaN or left unwritten (an arbitrary number)
 ValueOK(c, o)  == o.err = "none" => o.val # "nan"
-DerivsOK(c, o) == (o.err = "none" /\ WantD(c) /\ Len(o.dn) = c.ar) =>
-                    \A i \in 1..c.ar : ~Const(c, i) => ~o.dn[i]
-HesOK(c, o)    == (o.err = "none" /\ WantH(c) /\ Len(o.hn) = (c.ar * (c.ar + 1)) \div 2) =>
+DerivsOK(c, o) == (o.err = "none" /\ WantD(c) /\ Len(o.dn) = c.ar /\ Len(o.du) = c.ar) =>
+                    \A i \in 1..c.ar : ~Const(c, i) => (~o.dn[i] /\ ~o.du[i])
+HesOK(c, o)    == (o.err = "none" /\ WantH(c) /\ Len(o.hn) = (c.ar * (c.ar + 1)) \div 2 /\ Len(o.hu) = Len(o.hn)) =>
                     \A j \in 1..c.ar : \A i \in 1..j :
-                       (~Const(c, i) /\ ~Const(c, j)) => ~o.hn[HesIdx(i, j)]
+                       (~Const(c, i) /\ ~Const(c, j)) => (~o.hn[HesIdx(i, j)] /\ ~o.hu[HesIdx(i, j)])
 \* what cannot be computed is reported
 NaNArgOK(c, o) == (\E i \in 1..c.ar : c.cls[i] = "NaN") => o.err # "none"
 NonIntOK(c, o) == (\E i \in IntPos(c) : c.cls[i] = "nonint") => o.err # "none"
@@ -62,13 +66,15 @@ Holds(cl, c, o) == CASE cl = "value"       -> ValueOK(c, o)
 Violated(c, o) == {cl \in Clauses : ~Holds(cl, c, o)}
 
 -----------------------------------------------------------------------------
-(* The call as a two-step machine: idle -Case-> called -Ret-> idle, or          *)
-(* called -Hang|Crash-> idle (the call did not return).                         *)
+(* The call as a machine: idle -Case-> called -Ret(nan)-> called -Ret(val)->    *)
+(* idle, or called -Hang|Crash-> idle (the call did not return).                *)
 NoCase == [id |-> -1, fn |-> "", ar |-> 0, ip |-> <<>>, rnd |-> FALSE, str |-> FALSE,
            cls |-> <<>>, mode |-> "v", digc |-> FALSE]
-Idle == [pc |-> "idle", c |-> NoCase]
-Issue(c) == [pc |-> "called", c |-> c]
-CanReturn(s, id) == s.pc = "called" /\ s.c.id = id
+Fills == <<"nan", "val">>                       \* the order in which the outcomes are observed
+Idle == [pc |-> "idle", c |-> NoCase, k |-> 0]
+Issue(c) == [pc |-> "called", c |-> c, k |-> 0]
+CanReturn(s, id, fill) == s.pc = "called" /\ s.c.id = id /\ s.k < Len(Fills) /\ fill = Fills[s.k + 1]
+Return(s) == IF s.k + 1 = Len(Fills) THEN Idle ELSE [s EXCEPT !.k = s.k + 1]
 WellFormedCase(c) == /\ c.ar >= 0 /\ Len(c.cls) = c.ar
                      /\ \A i \in 1..c.ar : c.cls[i] \in Classes
                      /\ IntPos(c) \subseteq 1..c.ar
